@@ -1801,6 +1801,10 @@ func (app *App) repairCluster(clusterState, clusterStateDcs map[string]*nodestat
 			continue
 		}
 		node := app.cluster.Get(host)
+		if node == nil {
+			// host was removed from the registry (by a background refresh) after it was probed
+			continue
+		}
 		if host == master {
 			app.repairMasterNode(node, clusterState, clusterStateDcs)
 		} else {
